@@ -62,7 +62,18 @@ type Snap = BTreeMap<PathBuf, bool>; // path -> is_dir
 
 impl Sandbox {
     fn new() -> Sandbox {
-        let td = tempfile::tempdir().expect("tempdir");
+        Sandbox::from(tempfile::tempdir().expect("tempdir"))
+    }
+    /// for the batch searches (tens of thousands of puts, each with an fsync): a memory-backed
+    /// directory when the machine has one
+    fn new_fast() -> Sandbox {
+        let shm = Path::new("/dev/shm");
+        match if shm.is_dir() { tempfile::tempdir_in(shm).ok() } else { None } {
+            Some(td) => Sandbox::from(td),
+            None => Sandbox::new(),
+        }
+    }
+    fn from(td: tempfile::TempDir) -> Sandbox {
         let parent = td.path().canonicalize().expect("canon");
         let root = parent.join("d1").join("d2").join("cache");
         std::fs::create_dir_all(&root).unwrap();
@@ -367,6 +378,14 @@ struct Ctx {
     all_finals: HashMap<(String, String), (String, String)>,
     /// as_cache_key text -> constructor call, for calls with well-formed arguments
     ctor_texts: HashMap<String, (String, String)>,
+    /// (formatter, path) -> (input, request) for the fixed-width formatters (injectivity oracle)
+    fmt_paths: HashMap<(String, String), (String, String)>,
+    /// a well-formed key whose file is not `<directories>/<key text>` (the code re-spells names):
+    /// (layout, typed arguments) of the first one seen, for the directed collision search
+    respelled: Option<(String, String, Vec<String>)>,
+    respelled_count: u64,
+    /// collide-wf… failures so far
+    collisions: u64,
 }
 
 fn disk_cfg(root: &Path, layout: &str) -> Option<DiskCacheConfig> {
@@ -424,15 +443,19 @@ fn b01(t: &str) -> Option<bool> {
 /// typed key: returns (as_cache_key text, hostile strings, well-formed?, put result)
 #[allow(clippy::type_complexity)]
 fn typed(ctx: &Ctx, sb: &Sandbox, layout: &str, kind: &str, a: &[&str], run: bool) -> Option<(String, Vec<String>, bool, Option<Result<(bool, Diff), String>>)> {
-    fn name(s: &str) -> bool { !s.is_empty() && s.len() <= 64 && s.chars().all(|c| c.is_ascii_alphanumeric() || c == '_' || c == '-') }
-    fn dotted(s: &str) -> bool { !s.is_empty() && s.len() <= 64 && s.chars().all(|c| c.is_ascii_alphanumeric() || c == '_' || c == '-' || c == '.') }
-    fn endpoint(s: &str) -> bool { s.split('/').all(name) }
+    // well-formed = the characters of product / region / endpoint / archive / version names, of
+    // any length the file system can hold: every component of the key text fits in NAME_MAX
+    // together with the ".tmp" of the temporary file (so the put of a well-formed key succeeds)
+    fn name(s: &str) -> bool { wf_name_s(s) }
+    fn dotted(s: &str) -> bool { wf_dotted_s(s) }
+    fn endpoint(s: &str) -> bool { wf_endpoint_s(s) }
     macro_rules! go {
         ($k:expr, $strs:expr, $wf:expr) => {{
             let k = $k;
             let text = k.as_cache_key().to_string();
+            let wf = $wf && text.split('/').all(|g| g.len() <= WF_NAME_MAX);
             let r = if run { put_generic(ctx, sb, layout, k) } else { None };
-            Some((text, $strs, $wf, r))
+            Some((text, $strs, wf, r))
         }};
     }
     match (kind, a) {
@@ -514,13 +537,51 @@ fn url_path(target: &Option<String>, cu: bool) -> String {
     match target { Some(t) => enc(t), None => "-".into() }
 }
 
+/// long texts in messages: head … tail (the replay lines carry them in full)
+fn abbr(t: &str) -> String {
+    let c: Vec<char> = t.chars().collect();
+    if c.len() <= 120 { return format!("{t:?}"); }
+    format!("{:?}…[{} characters]…{:?}", c[..70].iter().collect::<String>(), c.len() - 100, c[c.len() - 30..].iter().collect::<String>())
+}
+/// where two texts differ: the differing runs for texts of one length, the common prefix otherwise
+fn differences(a: &str, b: &str) -> String {
+    let (x, y): (Vec<char>, Vec<char>) = (a.chars().collect(), b.chars().collect());
+    if x.len() != y.len() {
+        let cp = x.iter().zip(y.iter()).take_while(|(p, q)| p == q).count();
+        return format!("{} and {} characters, the first {cp} equal", x.len(), y.len());
+    }
+    let mut runs: Vec<String> = vec![];
+    let mut i = 0;
+    while i < x.len() {
+        if x[i] != y[i] {
+            let st = i;
+            while i < x.len() && x[i] != y[i] { i += 1; }
+            if runs.len() < 4 {
+                runs.push(format!("characters {st}..{i}: {:?} / {:?}", x[st..i].iter().collect::<String>(), y[st..i].iter().collect::<String>()));
+            }
+        } else {
+            i += 1;
+        }
+    }
+    format!("{} characters each, equal except {}", x.len(), runs.join(", "))
+}
+
 /// record final/temp names for the injectivity / temp oracles
 fn note_final(s: &mut Session, ctx: &mut Ctx, layout: &str, file: &str, key: &str, wf: bool, req: &str) {
     let k = (layout.to_string(), file.to_string());
     if wf {
         if let Some((prev, preq)) = ctx.finals.get(&k) {
             if prev != key {
-                s.oracle_fail("collide-wf", &format!("well-formed keys {prev:?} and {key:?} are stored in the same file {file}"), &[preq.clone(), req.to_string()]);
+                // shape: names of ordinary length, or names beyond 64 bytes (the request line
+                // carries the fields as hex, two characters per byte)
+                ctx.collisions += 1;
+                let long = req.split(' ').chain(preq.split(' ')).any(|t| t.len() > 128);
+                let msg = if prev.len().max(key.len()) <= 200 {
+                    format!("well-formed keys {prev:?} and {key:?} are stored in the same file {file}")
+                } else {
+                    format!("well-formed keys {} and {} ({}) are stored in the same file {}", abbr(prev), abbr(key), differences(prev, key), abbr(file))
+                };
+                s.oracle_fail(if long { "collide-wf-long-name" } else { "collide-wf" }, &msg, &[preq.clone(), req.to_string()]);
             }
         } else {
             ctx.finals.insert(k.clone(), (key.to_string(), req.to_string()));
@@ -550,10 +611,24 @@ fn note_temp(s: &mut Session, ctx: &mut Ctx, layout: &str, tmp: &str, key: &str,
     }
 }
 
+/// injectivity oracle of the fixed-width formatters: two different inputs never give one path
+fn note_fmt(s: &mut Session, ctx: &mut Ctx, fmt: &str, path: &str, input: &str, req: &str) {
+    let k = (fmt.to_string(), path.to_string());
+    if let Some((prev, preq)) = ctx.fmt_paths.get(&k) {
+        if prev != input {
+            let what = match fmt { "ckpath" => "format_content_key_path: keys", "seg" => "segment_data_path: segment indices", _ => "lru_file_path: generations" };
+            s.oracle_fail(&format!("collide-fmt-{fmt}"), &format!("{what} {prev} and {input} share the path {path}"), &[preq.clone(), req.to_string()]);
+        }
+    } else {
+        ctx.fmt_paths.insert(k, (input.to_string(), req.to_string()));
+    }
+}
 
 // ---------------------------------------------------------------- constructors (op `ctor`)
-fn wf_name_s(s: &str) -> bool { !s.is_empty() && s.len() <= 64 && s.chars().all(|c| c.is_ascii_alphanumeric() || c == '_' || c == '-') }
-fn wf_dotted_s(s: &str) -> bool { !s.is_empty() && s.len() <= 64 && s.chars().all(|c| c.is_ascii_alphanumeric() || c == '_' || c == '-' || c == '.') }
+/// NAME_MAX (255) minus the ".tmp" the temporary file may add
+const WF_NAME_MAX: usize = 251;
+fn wf_name_s(s: &str) -> bool { !s.is_empty() && s.len() <= WF_NAME_MAX && s.chars().all(|c| c.is_ascii_alphanumeric() || c == '_' || c == '-') }
+fn wf_dotted_s(s: &str) -> bool { !s.is_empty() && s.len() <= WF_NAME_MAX && s.chars().all(|c| c.is_ascii_alphanumeric() || c == '_' || c == '-' || c == '.') }
 fn wf_endpoint_s(s: &str) -> bool { s.split('/').all(wf_name_s) }
 
 /// the four ways the library reads a key's text: inherent method, `Display`, the `CacheKey`
@@ -719,6 +794,20 @@ fn run_line(s: &mut Session, ctx: &mut Ctx, req: &str) -> Option<String> {
                         // identity of a typed key = its field values, not the text they print to
                         let ident = format!("{kind}({}) = {text:?}", args.iter().map(|a| if *a == "~" { "None".to_string() } else { dec_tok(a).filter(|_| !matches!(*kind, "blte" | "content" | "root" | "encoding" | "blteblock")).map(|x| format!("{x:?}")).unwrap_or_else(|| a.to_string()) }).collect::<Vec<_>>().join(", "));
                         note_final(s, ctx, layout, &d.new_files[0], &ident, wf, req);
+                        // search heuristic, not a verdict: the file of a well-formed key is
+                        // <root>[/hh…]/<key text> as long as names are used as they are; the first
+                        // key for which this is not so seeds the directed collision search
+                        if wf && !d.new_files[0].ends_with(&format!("/{text}")) {
+                            ctx.respelled_count += 1;
+                            // the one with the longest text field is kept (most room to vary)
+                            let longest = |a: &[String]| a.iter().filter_map(|t| dec_tok(t)).map(|x| x.len()).max().unwrap_or(0);
+                            if !matches!(*kind, "blte" | "content" | "root" | "encoding" | "blteblock") {
+                                let mine: Vec<String> = args.iter().map(|a| a.to_string()).collect();
+                                if ctx.respelled.as_ref().is_none_or(|(_, _, a)| longest(a) < longest(&mine)) {
+                                    ctx.respelled = Some((layout.to_string(), kind.to_string(), mine));
+                                }
+                            }
+                        }
                     }
                     if wf && !ok {
                         s.oracle_fail("wf-put-fails", &format!("put of the well-formed key {text:?} failed"), &[req.to_string()]);
@@ -819,6 +908,10 @@ fn run_line(s: &mut Session, ctx: &mut Ctx, req: &str) -> Option<String> {
             match r {
                 Err(_) => { s.oracle_fail("panic-disk", &format!("ProtocolCache panicked for key {key:?}"), &[req.to_string()]); Some("panic".into()) }
                 Ok((ok, got)) => {
+                    if ok && d.new_files.len() == 1 {
+                        let canonical = !key.is_empty() && key.split('/').all(|g| !g.is_empty() && g != "." && g != "..");
+                        note_final(s, ctx, "pcache", &d.new_files[0], &key, canonical, req);
+                    }
                     s.tally(if ok { "pcache.ok" } else { "pcache.err" });
                     Some(if ok { format!("{} get={got}", fmt_put(ok, &d)) } else { fmt_put(ok, &d) })
                 }
@@ -846,7 +939,13 @@ fn run_line(s: &mut Session, ctx: &mut Ctx, req: &str) -> Option<String> {
             check_confined(s, "query", &[&ep], &d, req);
             match r {
                 Err(_) => { s.oracle_fail("panic-query", &format!("query panicked for endpoint {ep:?}"), &[req.to_string()]); Some("panic".into()) }
-                Ok(Ok(())) => { s.tally("query.ok"); Some(fmt_put(true, &d)) }
+                Ok(Ok(())) => {
+                    if d.new_files.len() == 1 {
+                        note_final(s, ctx, "query", &d.new_files[0], &ep, wf_endpoint_s(&ep), req);
+                    }
+                    s.tally("query.ok");
+                    Some(fmt_put(true, &d))
+                }
                 Ok(Err(e)) => {
                     let c = perr(&e);
                     s.tally(&format!("query.{c}"));
@@ -1163,6 +1262,7 @@ fn run_line(s: &mut Session, ctx: &mut Ctx, req: &str) -> Option<String> {
             let i: u16 = i.parse().ok()?;
             let p = cascette_client_storage::storage::segment::segment_data_path(Path::new("/S/d1/d2/cache"), i);
             if !p.starts_with("/S/d1/d2/cache") || p.components().count() != 6 { s.oracle_fail("escape-fmt-seg", &format!("{}", p.display()), &[req.to_string()]); }
+            note_fmt(s, ctx, "seg", &p.to_string_lossy(), &i.to_string(), req);
             Some(enc(&p.to_string_lossy()))
         }
         // the temporary file of IndexManager::save_index, observed by occupying a name with a
@@ -1246,6 +1346,7 @@ fn run_line(s: &mut Session, ctx: &mut Ctx, req: &str) -> Option<String> {
             let b: [u8; 9] = unhex(k)?.try_into().ok()?;
             let p = cascette_client_storage::container::hardlink::format_content_key_path(Path::new("/S/d1/d2/cache"), &b);
             if !p.starts_with("/S/d1/d2/cache") { s.oracle_fail("escape-fmt-ckpath", &format!("{}", p.display()), &[req.to_string()]); }
+            note_fmt(s, ctx, "ckpath", &p.to_string_lossy(), &hex(&b), req);
             Some(enc(&p.to_string_lossy()))
         }
         ["fmt", "lru", g] => {
@@ -1255,6 +1356,7 @@ fn run_line(s: &mut Session, ctx: &mut Ctx, req: &str) -> Option<String> {
             if cascette_client_storage::lru::lru_file::filename_to_generation(&p.file_name()?.to_string_lossy()) != Some(g) {
                 s.oracle_fail("fmt-lru-roundtrip", &format!("{} does not parse back to generation {g}", p.display()), &[req.to_string()]);
             }
+            note_fmt(s, ctx, "lru", &p.to_string_lossy(), &g.to_string(), req);
             Some(enc(&p.to_string_lossy()))
         }
         ["fmt", "idx", k] => {
@@ -1474,6 +1576,272 @@ fn collision_families() -> Vec<String> {
     v.retain(|l| seen.insert(l.clone()));
     v
 }
+// ---------------------------------------------------------------- long names, directed collision search
+const ALNUM: &[u8] = b"0123456789ABCDEFGHIJKLMNOPQRSTUVWXYZabcdefghijklmnopqrstuvwxyz";
+
+/// `n` bytes of varied alphanumeric text, the same for every key of a family
+fn filler(n: usize) -> String {
+    (0..n).map(|i| ALNUM[(i * 7 + 3) % ALNUM.len()] as char).collect()
+}
+/// `base` with the bytes at `pos..` replaced by `part` (ASCII only)
+fn with_at(base: &str, pos: usize, part: &str) -> String {
+    format!("{}{part}{}", &base[..pos], &base[pos + part.len()..])
+}
+/// Two-character alphanumeric tails that collide pairwise under every polynomial string hash
+/// `acc * m + byte` with a multiplier m in 1..=74, whatever the word size and whatever stands in
+/// front of or behind them: "A" c and "B" (c - m) (m = 31: "Aa"/"BB", m = 33: "Ab"/"BA", m = 1,
+/// i.e. byte sums and XOR folds: "A1"/"B0"), plus the anagram pair "ab"/"ba".
+fn poly_tails(ms: &[u8]) -> Vec<String> {
+    let mut v = BTreeSet::new();
+    for &m in ms {
+        if let Some(c) = (b'0'..=b'z').find(|&c| c.is_ascii_alphanumeric() && c.checked_sub(m).is_some_and(|d| d.is_ascii_alphanumeric())) {
+            v.insert(format!("A{}", c as char));
+            v.insert(format!("B{}", (c - m) as char));
+        }
+    }
+    v.insert("ab".into());
+    v.insert("ba".into());
+    v.into_iter().collect()
+}
+
+/// Well-formed typed keys (arguments of op `typed`) with names of 65 .. 241 bytes: the file name
+/// crosses every length at which a cache could start to shorten, hash or truncate names (64, 100,
+/// 128, 143, 200, 240 bytes; 251 is the longest name whose ".tmp" sibling still fits in NAME_MAX).
+/// Per length: one long head shared by all keys and
+///  - at the end: the tails of `poly_tails` for every multiplier 1..=74 (a shortened name that
+///    keeps a readable head plus a small polynomial hash of the whole key or of the cut-off part),
+///  - at the start and in the middle: the tails for the usual multipliers (a kept tail / kept head
+///    and tail),
+///  - one differing byte at the end, at the start and in the middle (plain truncation),
+/// and the same for every text field of every key type at 180 bytes.
+fn long_name_families() -> Vec<String> {
+    let mut v: Vec<String> = vec![];
+    let e = |t: &str| enc(t);
+    let us = e("us");
+    let all: Vec<u8> = (1..=74).collect();
+    let usual = [1u8, 31, 33, 37];
+    // ribbit:us:<endpoint>: 10 bytes in front of the endpoint
+    for (flen, ms) in [(241usize, &all[..]), (119, &usual[..]), (65, &usual[..])] {
+        let base = filler(flen);
+        for t in poly_tails(ms) {
+            v.push(format!("ribbit {} {us} ~", e(&with_at(&base, flen - 2, &t))));
+        }
+        for pos in [0, flen / 2] {
+            for t in poly_tails(&usual) {
+                v.push(format!("ribbit {} {us} ~", e(&with_at(&base, pos, &t))));
+            }
+        }
+        for pos in [flen - 1, 0, flen / 2] {
+            for c in ["1", "2"] {
+                v.push(format!("ribbit {} {us} ~", e(&with_at(&base, pos, c))));
+            }
+        }
+    }
+    // a long last segment behind short ones ("v1/products/<long>": only the file name is long)
+    {
+        let base = filler(200);
+        for t in poly_tails(&usual) {
+            v.push(format!("ribbit {} {us} {}", e(&format!("v1/products/{}", with_at(&base, 198, &t))), e("wow")));
+        }
+    }
+    // every text field of every key type
+    let h1 = "0123456789abcdef0123456789abcdef";
+    let base = filler(180);
+    let mut vars: Vec<String> = vec![];
+    for t in ["Aa", "BB", "Ab", "BA"] { vars.push(with_at(&base, 178, t)); }
+    for t in ["Aa", "BB"] { vars.push(with_at(&base, 0, t)); vars.push(with_at(&base, 90, t)); }
+    for (pos, c) in [(179, "1"), (179, "2"), (0, "1"), (0, "2")] { vars.push(with_at(&base, pos, c)); }
+    for x in &vars {
+        v.push(format!("ribbit {} {} ~", e("versions"), e(x)));
+        v.push(format!("ribbit {} {us} {}", e("versions"), e(x)));
+        v.push(format!("config {} {}", e(x), e("ab")));
+        v.push(format!("config {} {}", e("buildconfig"), e(x)));
+        v.push(format!("index {} {}", e(x), e("ab")));
+        v.push(format!("index {} {}", e("data.000"), e(x)));
+        v.push(format!("manifest {} {h1} ~", e(x)));
+        v.push(format!("manifest {} {h1} {}", e("root"), e(x)));
+        v.push(format!("archive {} 0 1", e(x)));
+    }
+    let mut seen = BTreeSet::new();
+    v.retain(|l| seen.insert(l.clone()));
+    v
+}
+
+/// The directed search on the REAL code, outside the request stream: all `texts` (key texts of
+/// distinct well-formed keys) are stored through ONE DiskCache in one scratch directory, value =
+/// position in the list, and read back. Returns a pair (i, j) of different keys such that key i
+/// reads the value stored under key j (they share a file), or two keys with the same text.
+fn batch_collision(ctx: &Ctx, layout: &str, texts: &[String]) -> Option<(usize, usize)> {
+    let mut seen: HashMap<&str, usize> = HashMap::new();
+    for (i, t) in texts.iter().enumerate() {
+        if let Some(&j) = seen.get(t.as_str()) { return Some((j, i)); }
+        seen.insert(t, i);
+    }
+    let sb = Sandbox::new_fast();
+    let cfg = disk_cfg(&sb.root, layout)?.with_max_files(10_000_000);
+    catch(AssertUnwindSafe(|| {
+        let cache: DiskCache<RawKey> = DiskCache::new(cfg).ok()?;
+        let mut stored = vec![false; texts.len()];
+        for (i, t) in texts.iter().enumerate() {
+            stored[i] = ctx.rt.block_on(cache.put(RawKey(t.clone()), Bytes::from(i.to_string()))).is_ok();
+        }
+        for (i, t) in texts.iter().enumerate() {
+            if !stored[i] { continue; }
+            if let Ok(Some(d)) = ctx.rt.block_on(cache.get(&RawKey(t.clone()))) {
+                if let Some(j) = std::str::from_utf8(&d).ok().and_then(|x| x.parse::<usize>().ok()) {
+                    if j != i { return Some((i, j)); }
+                }
+            }
+        }
+        None
+    })).ok().flatten()
+}
+
+/// key text of typed arguments (no file system access); None when they are not well-formed
+fn typed_text(ctx: &Ctx, sb0: &Sandbox, kind: &str, args: &[String]) -> Option<String> {
+    let refs: Vec<&str> = args.iter().map(|x| x.as_str()).collect();
+    let (text, _, wf, _) = typed(ctx, sb0, "flat", kind, &refs, false)?;
+    if wf { Some(text) } else { None }
+}
+
+/// inputs evaluated on the real code under an oracle without a request line of their own
+fn add_search_evals(s: &mut Session, n: u64) {
+    let prev = s.extra.get("oracle_only_search_evaluations").and_then(|x| x.as_u64()).unwrap_or(0);
+    s.extra.insert("oracle_only_search_evaluations".into(), serde_json::json!(prev + n));
+}
+
+/// run `batch_collision` over typed keys; a pair that shares a file is emitted as two ordinary
+/// `typed` request lines (whose oracle, `collide-wf…`, names both keys and the file)
+fn search_typed(s: &mut Session, ctx: &mut Ctx, layout: &str, kind: &str, cands: &[Vec<String>], label: &str) -> bool {
+    let mut texts = vec![];
+    let mut idx = vec![];
+    let sb0 = Sandbox::new(); // not used: the key text is computed without running anything
+    for (i, a) in cands.iter().enumerate() {
+        if let Some(t) = typed_text(ctx, &sb0, kind, a) { texts.push(t); idx.push(i); }
+    }
+    s.tally_n(&format!("search.{label}.keys"), texts.len() as u64);
+    add_search_evals(s, texts.len() as u64);
+    match batch_collision(ctx, layout, &texts) {
+        Some((i, j)) => {
+            s.tally(&format!("search.{label}.found"));
+            for k in [j, i] {
+                emit(s, ctx, format!("typed {layout} {kind} {}", cands[idx[k]].join(" ")));
+            }
+            true
+        }
+        None => false,
+    }
+}
+
+/// the search around the first well-formed key that was not stored under its text (none on a tree
+/// where names are used as they are, so this draws nothing from the generator's random stream)
+fn respelled_search(s: &mut Session, ctx: &mut Ctx, rng: &mut Rng, thorough: bool) {
+    let Some((layout, kind, args)) = ctx.respelled.clone() else { return };
+    if ctx.collisions > 0 { return; }
+    ctx.respelled = None;
+    let mut srng = Rng(rng.next() | 1);
+    let cands = neighbours(&mut srng, &args, if thorough { 150_000 } else { 40_000 });
+    search_typed(s, ctx, &layout, &kind, &cands, "respelled");
+}
+
+/// candidates around one well-formed key whose file name is not its text: the same key with one
+/// text field varied (same length, alphanumerics only): single bytes at the ends and inside, every
+/// two-character tail and head, random four-character tails
+fn neighbours(rng: &mut Rng, args: &[String], n_random: usize) -> Vec<Vec<String>> {
+    // the longest text field
+    let Some((fi, field)) = args.iter().enumerate().filter_map(|(i, a)| dec_tok(a).map(|x| (i, x))).filter(|(_, x)| x.is_ascii() && !x.is_empty()).max_by_key(|(_, x)| x.len()) else { return vec![] };
+    let b = field.as_bytes();
+    let l = b.len();
+    let ok = |p: usize| p < l && b[p].is_ascii_alphanumeric();
+    let mut out: Vec<String> = vec![field.clone()];
+    let mut pos: Vec<usize> = (0..l.min(6)).chain(l.saturating_sub(6)..l).chain((1..7).map(|k| k * l / 7)).collect();
+    pos.sort();
+    pos.dedup();
+    for p in pos {
+        if !ok(p) { continue; }
+        for &c in ALNUM { out.push(with_at(&field, p, &(c as char).to_string())); }
+    }
+    for p in [l.saturating_sub(2), 0] {
+        if l >= 2 && ok(p) && ok(p + 1) {
+            for &c in ALNUM { for &d in ALNUM { out.push(with_at(&field, p, &format!("{}{}", c as char, d as char))); } }
+        }
+    }
+    if l >= 4 && (l - 4..l).all(ok) {
+        for _ in 0..n_random {
+            let t: String = (0..4).map(|_| *rng.pick(ALNUM) as char).collect();
+            out.push(with_at(&field, l - 4, &t));
+        }
+    }
+    let mut seen = BTreeSet::new();
+    out.retain(|x| seen.insert(x.clone()));
+    out.into_iter().map(|x| { let mut a = args.to_vec(); a[fi] = enc(&x); a }).collect()
+}
+
+/// exhaustive two-adjacent-byte families of the fixed-width formatters (pure functions): every
+/// value of bytes i, i+1 over fixed other bytes, i = 0..; any two inputs with one path are emitted
+/// as two ordinary `fmt` request lines (oracle `collide-fmt-…`). Covers dropped padding (nibble
+/// re-splits such as 01 23 / 12 03), dropped or merged bytes, narrowed integer formats.
+fn fmt_searches(s: &mut Session, ctx: &mut Ctx, thorough: bool) {
+    use cascette_client_storage::container::hardlink::format_content_key_path;
+    use cascette_client_storage::lru::lru_file::lru_file_path;
+    use cascette_client_storage::storage::segment::segment_data_path;
+    let base = Path::new("/S/d1/d2/cache");
+    let mut evals = 0u64;
+    let mut found: Vec<(String, String)> = vec![];
+    // format_content_key_path
+    let mut bases: Vec<[u8; 9]> = vec![[0; 9], [0xab, 0xcd, 0x12, 0x34, 0x56, 0x78, 0x9a, 0xbc, 0xde]];
+    if thorough { bases.push([0xff; 9]); bases.push([0x01, 0x10, 0x02, 0x20, 0x0a, 0xa0, 0x0f, 0xf0, 0x00]); }
+    'ck: for b in &bases {
+        for i in 0..8 {
+            let mut map: HashMap<PathBuf, [u8; 9]> = HashMap::with_capacity(1 << 16);
+            for v in 0..=0xffffu32 {
+                let mut k = *b;
+                k[i] = (v >> 8) as u8;
+                k[i + 1] = v as u8;
+                let Ok(p) = catch(AssertUnwindSafe(|| format_content_key_path(base, &k))) else { found.push((format!("fmt ckpath {}", hex(&k)), String::new())); break 'ck };
+                evals += 1;
+                if let Some(prev) = map.insert(p, k) {
+                    found.push((format!("fmt ckpath {}", hex(&prev)), format!("fmt ckpath {}", hex(&k))));
+                    break 'ck;
+                }
+            }
+        }
+    }
+    // segment_data_path: every u16
+    {
+        let mut map: HashMap<PathBuf, u16> = HashMap::with_capacity(1 << 16);
+        for i in 0..=u16::MAX {
+            evals += 1;
+            if let Some(prev) = map.insert(segment_data_path(base, i), i) {
+                found.push((format!("fmt seg {prev}"), format!("fmt seg {i}")));
+                break;
+            }
+        }
+    }
+    // lru_file_path
+    'lru: for b in if thorough { vec![0u64, 0x0123_4567_89ab_cdef] } else { vec![0u64] } {
+        for i in 0..7 {
+            let mut map: HashMap<PathBuf, u64> = HashMap::with_capacity(1 << 16);
+            for v in 0..=0xffffu64 {
+                let sh = 8 * (6 - i);
+                let g = (b & !(0xffff << sh)) | (v << sh);
+                evals += 1;
+                if let Some(prev) = map.insert(lru_file_path(base, g), g) {
+                    found.push((format!("fmt lru {prev}"), format!("fmt lru {g}")));
+                    break 'lru;
+                }
+            }
+        }
+    }
+    s.tally_n("search.fmt.evaluations", evals);
+    add_search_evals(s, evals);
+    for (a, b) in found {
+        s.tally("search.fmt.found");
+        emit(s, ctx, a);
+        if !b.is_empty() { emit(s, ctx, b); }
+    }
+}
+
 fn wf_dotted(rng: &mut Rng) -> String {
     const N: &[&str] = &["data.000", "data.001", "data.tmp", "1.15.7", "1.15.8", "v2", "1", "1.tmp", "1.0", "a.b.c", "archive-01", "x.", ".x", "..", "."];
     rng.pick(N).to_string()
@@ -1521,9 +1889,9 @@ fn main() {
     let args = Args::parse();
     quiet_panics();
     let mut s = Session::new(&args.out);
-    s.rule = "every request runs the real API in a fresh scratch parent /S with root /S/d1/d2/cache; inputs: exhaustive raw keys over the segment alphabet {'..','.','','a','b.x'} up to 4 segments (relative, trailing '/', absolute under /S), seeded hostile strings (.., ., empty, absolute, 255/256-byte names, NUL, non-ASCII, ':' , '.tmp' endings), all ten typed keys with well-formed and hostile fields on flat and hashed layouts, each of the 18 public key constructors by name, assignments to public key fields after the text was read, format_cache_key, cold DiskCache::remove with planted files inside and outside, RangeDownloader::download_archive_content with archive names of every shape, segment file names, the index temporary name, ProtocolCache keys, query endpoints, CDN paths/hosts with content keys of every length 0..=32 through every CdnClient entry point, installation names, fixed-width formatters; for every string-taking API the hostile cores ('..', '../x' up to three levels, '/S/evil') behind / in front of / between 13 padding characters (blank, tab, NL, CR, VT, FF, NBSP, U+3000, U+2028, U+FEFF, U+200B, quotes) and re-spelled (back-slashes, padded segments, percent-encoding, full-width and two-dot-leader characters, trailing dots, upper case); well-formed typed keys in separator-shift families for '_' and '-' (same concatenation, every field boundary), joiner families over '_','-','/','.', case pairs and 64-byte names differing in one byte, plus random names glued from a small token pool; op cdnx = call sequences for one hash on one CDN path through one CdnClient (all ordered pairs of download config/data/patch, archive index, range, resume, progress; A;B;A; disk and memory cache; random sequences of 2..5) against a mock CDN that serves different bytes per URL; non-trivial = the call reached the file system or the URL/key builder (not unsafe-skip / n/a / bad-op); distinct = canonical request text".into();
+    s.rule = "every request runs the real API in a fresh scratch parent /S with root /S/d1/d2/cache; inputs: exhaustive raw keys over the segment alphabet {'..','.','','a','b.x'} up to 4 segments (relative, trailing '/', absolute under /S), seeded hostile strings (.., ., empty, absolute, 255/256-byte names, NUL, non-ASCII, ':' , '.tmp' endings), all ten typed keys with well-formed and hostile fields on flat and hashed layouts, each of the 18 public key constructors by name, assignments to public key fields after the text was read, format_cache_key, cold DiskCache::remove with planted files inside and outside, RangeDownloader::download_archive_content with archive names of every shape, segment file names, the index temporary name, ProtocolCache keys, query endpoints, CDN paths/hosts with content keys of every length 0..=32 through every CdnClient entry point, installation names, fixed-width formatters; for every string-taking API the hostile cores ('..', '../x' up to three levels, '/S/evil') behind / in front of / between 13 padding characters (blank, tab, NL, CR, VT, FF, NBSP, U+3000, U+2028, U+FEFF, U+200B, quotes) and re-spelled (back-slashes, padded segments, percent-encoding, full-width and two-dot-leader characters, trailing dots, upper case); well-formed typed keys in separator-shift families for '_' and '-' (same concatenation, every field boundary), joiner families over '_','-','/','.', case pairs and 64-byte names differing in one byte, plus random names glued from a small token pool; long names (65 / 119 / 241-byte endpoints, 180-byte values in every text field of every key type; well-formed = name characters and every component of the key text at most 251 bytes): one shared head with, at the end, the two-character tails that collide under acc*m+b for every multiplier m in 1..=74 (Aa/BB, Ab/BA, …) and the anagram pair, the usual ones also at the start and in the middle, and one differing byte at the end / start / middle, on flat and hashed layouts, through ProtocolCache and query as well (collide-wf-long-name); outside the request stream (O only, counted in extra.oracle_only_search_evaluations): all 3844 two-character alphanumeric tails and heads around a 239-byte head stored through one DiskCache and read back, the exhaustive two-adjacent-byte families of format_content_key_path (8 positions x 65536 x 2 bases) and lru_file_path, every u16 of segment_data_path, and - only when a well-formed key was stored under a file name that is not its text - about 48 000 same-length neighbours of that key (single bytes, two-character ends, random four-character tails); a pair found there is emitted as two ordinary request lines; fixed-width formatters also get the nibble re-split family (bytes below 0x10 next to each other at every position) under collide-fmt-ckpath / -lru / -seg; op cdnx = call sequences for one hash on one CDN path through one CdnClient (all ordered pairs of download config/data/patch, archive index, range, resume, progress; A;B;A; disk and memory cache; random sequences of 2..5) against a mock CDN that serves different bytes per URL; non-trivial = the call reached the file system or the URL/key builder (not unsafe-skip / n/a / bad-op); distinct = canonical request text".into();
     let rt = tokio::runtime::Builder::new_multi_thread().worker_threads(2).enable_all().build().expect("rt");
-    let mut ctx = Ctx { rt, srv: start_server(), finals: HashMap::new(), temps: HashMap::new(), all_finals: HashMap::new(), ctor_texts: HashMap::new() };
+    let mut ctx = Ctx { rt, srv: start_server(), finals: HashMap::new(), temps: HashMap::new(), all_finals: HashMap::new(), ctor_texts: HashMap::new(), fmt_paths: HashMap::new(), respelled: None, respelled_count: 0, collisions: 0 };
     let mut rng = Rng::new(args.seed);
 
     if let Some(p) = &args.replay {
@@ -1654,6 +2022,44 @@ fn main() {
             emit(&mut s, &mut ctx, format!("typed {l} {f}"));
         }
     }
+    // names of 65 .. 241 bytes (see long_name_families), also through ProtocolCache and query
+    for f in long_name_families() {
+        for l in ["flat", "h2"] {
+            emit(&mut s, &mut ctx, format!("typed {l} {f}"));
+        }
+    }
+    {
+        let base = filler(200);
+        for t in poly_tails(&[1, 31, 33, 37]) {
+            let name = with_at(&base, 198, &t);
+            emit(&mut s, &mut ctx, format!("pcache {}", enc(&format!("api/ribbit/v1/products/{name}"))));
+            emit(&mut s, &mut ctx, format!("query {}", enc(&format!("v1/products/{name}"))));
+        }
+        for c in ["1", "2"] {
+            for pos in [0, 199] {
+                emit(&mut s, &mut ctx, format!("pcache {}", enc(&with_at(&base, pos, c))));
+                emit(&mut s, &mut ctx, format!("query {}", enc(&with_at(&base, pos, c))));
+            }
+        }
+    }
+    // directed search on the real code (O only, no request lines unless a pair is found): behind
+    // and in front of one long head every two-character alphanumeric tail / head (3844 keys each)
+    // through one DiskCache; two keys that read each other's value are then emitted as `typed` lines
+    {
+        let base = filler(241);
+        let two = |pos: usize| -> Vec<Vec<String>> {
+            let mut v = vec![];
+            for &c in ALNUM { for &d in ALNUM { v.push(vec![enc(&with_at(&base, pos, &format!("{}{}", c as char, d as char))), enc("us"), "~".to_string()]); } }
+            v
+        };
+        if ctx.collisions == 0 { search_typed(&mut s, &mut ctx, "flat", "ribbit", &two(239), "tails2"); }
+        if ctx.collisions == 0 { search_typed(&mut s, &mut ctx, "h2", "ribbit", &two(0), "heads2"); }
+        if thorough && ctx.collisions == 0 { search_typed(&mut s, &mut ctx, "h2", "ribbit", &two(239), "tails2h"); }
+        if thorough && ctx.collisions == 0 { search_typed(&mut s, &mut ctx, "flat", "ribbit", &two(120), "mid2"); }
+    }
+    // a well-formed key was stored under something else than its text and no fixed family found
+    // two keys in one file: search around that key
+    respelled_search(&mut s, &mut ctx, &mut rng, thorough);
     // hostile cores behind padding and in other spellings, in every text field
     {
         let forms = disguised(&mut rng, thorough, false, &["..", "../escaped"], &["/x"]);
@@ -1788,6 +2194,32 @@ fn main() {
         let g = match rng.below(5) { 0 => 0, 1 => u64::MAX, 2 => 1, 3 => 0x2e2e_2e2e_2f2f_2f2f, _ => rng.next() };
         emit(&mut s, &mut ctx, format!("fmt lru {g}"));
     }
+    // nibble re-splits and zero-padding boundaries: bytes below 0x10 next to each other at every
+    // position (01 23 / 12 03, 01 10 / 11 00, 0a bc / ab 0c, 00 01 / 00 10 / 01 00 / 10 00)
+    {
+        let pairs: [(u8, u8); 12] = [(0x01, 0x23), (0x12, 0x03), (0x01, 0x10), (0x11, 0x00), (0x0a, 0xbc), (0xab, 0x0c), (0x00, 0x01), (0x00, 0x10), (0x01, 0x00), (0x10, 0x00), (0x00, 0x00), (0x0f, 0xff)];
+        for i in 0..8 {
+            for (a, b) in pairs {
+                let mut k = [0xabu8, 0xcd, 0x45, 0x67, 0x89, 0xab, 0xcd, 0xef, 0x76];
+                k[i] = a;
+                k[i + 1] = b;
+                emit(&mut s, &mut ctx, format!("fmt ckpath {}", hex(&k)));
+                if i < 7 {
+                    let g = u64::from_be_bytes([k[0], k[1], k[2], k[3], k[4], k[5], k[6], k[7]]);
+                    emit(&mut s, &mut ctx, format!("fmt lru {g}"));
+                }
+            }
+        }
+        for n in 0..18 {
+            for v in [1u8, 0xf] {
+                let mut k = [0u8; 9];
+                k[n / 2] = if n % 2 == 0 { v << 4 } else { v };
+                emit(&mut s, &mut ctx, format!("fmt ckpath {}", hex(&k)));
+            }
+        }
+    }
+    // exhaustive adjacent-byte families, O only (see fmt_searches)
+    fmt_searches(&mut s, &mut ctx, thorough);
     for _ in 0..(if thorough { 64 } else { 24 }) {
         emit(&mut s, &mut ctx, format!("fmt idx {}", hexkey(&mut rng)));
     }
@@ -1915,6 +2347,8 @@ fn main() {
     for l in ["raw flat zz", "raw deep 61", "typed flat nokind 61", "cdn nope ~ @ 61 data 00 cu=1", "cdnx disk 61 0000", "cdnx tape 61 0000 index", "cdnx disk 61 0000 dl.nope", "cdnx disk 61 0000 range.data.1.0", "cdnx disk 61 0000 range.data.18446744073709551615.1", "cdnx disk 61 zz index", "hello", "fmt lru x", "ctor RibbitKey::nope 61", "ctor BlteKey::new zz", "stale nokind 61", "fmt seg 65536", "rdel deep 61", "arange 61 61 ~ 61 0 x cu=0"] {
         emit(&mut s, &mut ctx, l.to_string());
     }
+    respelled_search(&mut s, &mut ctx, &mut rng, thorough);
+    s.extra.insert("wf_keys_not_stored_under_their_text".into(), serde_json::json!(ctx.respelled_count));
     s.extra.insert("wf_final_files".into(), serde_json::json!(ctx.finals.len()));
     s.extra.insert("temp_names_observed".into(), serde_json::json!(ctx.temps.len()));
     s.finish();
